@@ -3,32 +3,75 @@ import re
 from . import common as C
 
 MANIFEST = dict(
-   technique="Lean 4 proof by induction over modifier histories (internals = abstraction of the history; processModifiersCore transcribed) + exhaustive short / random longer histories applied by reflection to real schemas of 21 types, judged by the history-only specification",
-   text="c03_history_partial proves for every history (any length, any order) of Optional/Nilable/Nullish/NonOptional/Default/DefaultFunc/Prefault/PrefaultFunc that the engine's nil outcome is the documented one (default unchecked > prefault validated > nonoptional error > nil > type error); c03_witness_* prove the full statement false where an overwrite or a refinement is attached (known findings). The model is tied to /repo by applying every history up to length 2 (thorough: 3) plus random longer ones to real schemas through reflection and classifying Parse(nil)/Parse(typed nil) by sentinel default/prefault values; non-nil inputs are compared with the unmodified base schema in the harness itself.",
-   note="Trusted: Lean kernel; axioms propext/Classical.choice/Quot.sound at most; harness + comparer. Values are abstracted to valid/invalid w.r.t. the schema's own check. When both a value default and a function default are set the spec accepts either (lenient reading). Types with their own nil path (discriminated union, lazy) and Record's pointer variants deviate and are listed as known findings by failure class; transform/pipe/struct/set/map/tuple/xor/bigint/time are not in the harness table yet.",
+   technique="Lean 4 proof by induction over modifier histories (internals = abstraction of the history; processModifiersCore transcribed) and over chains of Transform/Pipe wrappers (ZodTransform.Parse / ZodPipe.Parse transcribed, callback log included) + exhaustive short / random longer histories applied by reflection to real schemas of 30 types, bare and under every wrapper chain up to length 3 with logging sentinel callbacks, judged by the history-only specification",
+   text="c03_history_partial proves for every history (any length, any order) of Optional/Nilable/Nullish/NonOptional/Default/DefaultFunc/Prefault/PrefaultFunc that the engine's nil outcome is the documented one (default unchecked > prefault validated > nonoptional error > nil > type error); c03_witness_* prove the full statement false where an overwrite or a refinement is attached (known findings). For the schema wrapped in any chain of .Transform(f_i) / .Pipe(target_i) calls, c03_wrapped_default proves that with a default set a nil input returns what the bare schema returned and calls no transform function however many are chained (only pipe targets run: c03_witness_default_piped, known finding), c03_wrapped_plain that without a default (prefault, Optional/Nilable nil) and for every non-nil input each wrapper runs exactly once, in order, on the previous one's output, and c03_wrapped_partial combines them with the history theorem into the statement over result and callback log. The model is tied to /repo by applying every history up to length 2 (thorough: 3) plus random longer ones to real schemas through reflection and classifying Parse(nil)/Parse(typed nil) by sentinel default/prefault values; non-nil inputs are compared with the unmodified base schema (under the same wrappers) in the harness itself; wrapped cases are observed as a result term over the bare outcome plus the callback log.",
+   note="Trusted: Lean kernel; axioms propext/Classical.choice/Quot.sound at most; harness + comparer. Values are abstracted to valid/invalid w.r.t. the schema's own check. When both a value default and a function default are set the spec accepts either (lenient reading). Types with their own nil path (discriminated union, lazy) and Record's pointer variants deviate and are listed as known findings by failure class; Only Parse is exercised (StrictParse nil paths are C09's known findings); pipe targets and transform callbacks always succeed; bigint/complex/file/function/nil are not in the harness table. Callback arguments are compared up to numeric representation and nil-pointer vs zero value (a type's Transform wrapper dereferences).",
    design="DESIGN.md §5 C03")
 
 MODULES = ["Gozod.Proofs.C03"]
 THEOREMS = ["Gozod.C03." + t for t in [
     "dv_applyAll", "df_applyAll", "pv_applyAll", "pf_applyAll", "nonOptional_applyAll", "optnil_applyAll",
     "overwrite_applyAll", "c03_history_partial", "c03_outcome_reads_only_modifiers",
-    "c03_witness_default_checked", "c03_witness_refine_on_nil", "c03_witness_refine_on_nil_int"]]
+    "c03_witness_default_checked", "c03_witness_refine_on_nil", "c03_witness_refine_on_nil_int",
+    "internals_wrapFrom", "internals_wrap", "parse_wrapFrom_plain", "parse_wrapFrom_default",
+    "c03_wrapped_plain", "c03_wrapped_default", "c03_default_skips_all_transforms", "pipeCalls_noPipe", "pipeCalls_only_pipes",
+    "hasDefault_applyAll", "c03_wrapped_partial", "c03_witness_default_piped", "c03_wrapped_nonnil"]]
 
 def cls(s):
     s = s.strip()
-    for a, b in (("default", "default"), ("prefault", "prefault"), ("err:checks", "checks-error"), ("err:nonoptional", "nonoptional"),
+    for a, b in (("err:notzod", "notzod-error"), ("default", "default"), ("prefault", "prefault"), ("err:checks", "checks-error"), ("err:nonoptional", "nonoptional"),
                  ("err:type", "type-error"), ("err:custom", "custom-error"), ("nil", "nil")):
         if s.startswith(a): return b
     return re.sub(r"[^A-Za-z0-9:._-]+", "_", s)[:40]
 
+def base_of(obs):
+    """Wrapped observation '<ok:term|err:class> log=…' → the bare schema's outcome inside it."""
+    r = obs.strip().split(" ")[0]
+    if r.startswith("ok:"):
+        r = r[3:]
+        while re.match(r"f\d+\(", r) and r.endswith(")"):
+            r = r[r.index("(") + 1:-1]
+    return r
+
 def key(op, impl, M, S):
     body = C.op_body(op).split(" ")
     ty = C.op_comment(op).split(" ")[0]
-    ops = body[5:] if body[1] == 'nil' else body[2:]
+    ops = {"nil": body[5:], "val": body[2:], "wnil": body[6:], "wval": body[4:]}.get(body[1], body[2:])
     if impl.startswith("panic"): return "%s:panic" % ty
     if body[1] == "val":
         return "%s:nonnil-input-%s" % (ty, impl.split(" ")[0].replace(":", "-"))
+    if body[1] == "wval":
+        # same class names as the bare lines: does the modified schema differ from the base in verdict / value / callbacks
+        r, b = impl.split(" ")[0], (impl.split(" base=") + ["?"])[1]
+        if b != "same":
+            kind = "verdict" if r.startswith("ok:") != b.startswith("ok:") else ("value" if r != b.split("_log=")[0] else "callbacks")
+            return "%s:nonnil-input-diff-%s" % (ty, kind)
+        return "%s:wrapped-nonnil-%s" % (ty, "rejected" if r == "err" else "callbacks")
     exp = (S or "")[len("spec-rejects:expected "):] if (S or "").startswith("spec-rejects:expected ") else (S or "?")
+    if body[1] == "wnil":
+        # a deviation of the bare schema seen through the wrappers keeps the bare schema's class name
+        # (when several outcomes are admissible, the one closest to what the implementation's bare schema did)
+        ib, exps = base_of(impl), exp.split(" | ")
+        eb = base_of(next((x for x in exps if base_of(x) == ib), exps[0]))
+        if ty == "record" and any(o in ("Optional", "Nilable", "Nullish") for o in ops):
+            return "record:pointer-variant-conversion"
+        if ib == "err:checks" and "Overwrite" in ops and eb.startswith("default") and impl == M:
+            return "%s:default-checked-when-overwrite-attached" % ty
+        if ib == "err:custom" and "Refine" in ops and impl == M:
+            return "%s:refinement-runs-on-nil" % ty
+        if cls(ib) != cls(eb):
+            return "%s:%s-instead-of-%s" % (ty, cls(ib), cls(eb))
+        # the bare outcome is the documented one: the deviation is in what the wrappers did
+        log = impl.split(" log=")[1] if " log=" in impl else "?"
+        calls = [] if log == "-" else log.split(";")
+        res = impl.split(" ")[0]
+        if eb.startswith("default"):
+            if res.startswith("ok:f") or any(c.startswith("f") for c in calls):
+                return "wrapped:transform-ran-on-default"
+            if impl == M and calls and all(re.match(r"p\d+\(default:(value|func)\)$", c) for c in calls) and res == "ok:" + eb:
+                return "wrapped:pipe-target-ran-on-default"
+            return "wrapped:default-other"
+        return "wrapped:%s-callbacks-differ" % cls(eb)
     if ty == "record" and any(o in ("Optional", "Nilable", "Nullish") for o in ops):
         return "record:pointer-variant-conversion"
     if impl == M and impl == "err:checks" and "Overwrite" in ops and exp.startswith("default"):
@@ -38,7 +81,7 @@ def key(op, impl, M, S):
     return "%s:%s-instead-of-%s" % (ty, cls(impl), cls(exp.split("|")[0]))
 
 def describe(op):
-    return "harness/cmd/c03: schema type after '#'; ops applied left to right by reflection (':v'/':i' = argument that does / does not satisfy the schema's check); in=nil|nilptr"
+    return "harness/cmd/c03: schema type after '#'; ops applied left to right by reflection (':v'/':i' = argument that does / does not satisfy the schema's check); in=nil|nilptr. wnil/wval: then wrapped in the chain <stack> (T = .Transform(f_i), P = .Pipe(logging target_i), innermost first, i = position); observation = result term + callback log"
 
 def run(res):
     ok, detail = C.prove(res, MODULES, THEOREMS)
@@ -48,9 +91,13 @@ def run(res):
     if data is None:
         C.tie_broken(res, "correspondence C03/processModifiersCore", err)
         return res.finish()
-    C.decide(res, "C03", data, key, "C03/processModifiersCore+modifier-methods", describe=describe)
+    C.decide(res, "C03", data, key, "C03/processModifiersCore+modifier-methods+ZodTransform/ZodPipe", describe=describe)
     res.coverage["rule"] = ("every history of length <=2 (thorough <=3) over 14 ops (4 flags, Default/DefaultFunc/Prefault/PrefaultFunc x valid/invalid argument, "
         "identity Overwrite, always-true Refine) plus random histories up to length 5, x 30 schema types (string, stringptr, int, int8, int64ptr, uint16, float64, float32, bool, "
-        "slice, object, record, array, enum, literal, any, unknown, union, intersection, discriminated union, lazy) x inputs {nil, typed nil pointer, valid, invalid}. distinct = distinct op lines.")
-    res.assumptions += ["sentinel default/prefault values identify the source of a returned value", "lenient reading when both default kinds are set"]
+        "slice, object, record, array, enum, literal, any, unknown, union, intersection, discriminated union, lazy, tuple, set, map, xor, struct, time, stringbool, email, never) x inputs {nil, typed nil pointer, valid, invalid}; "
+        "each applicable history additionally under chains of .Transform(f_i)/.Pipe(logging target_i) (every chain of length <=3 for histories of length <=1, every chain of length <=2 for length-2 histories, "
+        "two random chains per random history; thorough: every chain for every exhaustive history), observing result term and callback log. distinct = distinct op lines.")
+    res.assumptions += ["sentinel default/prefault values identify the source of a returned value", "lenient reading when both default kinds are set",
+                        "a pipe target counts as a callback: the statement's 'without running checks or transforms' is read as 'no user callback runs on the default'",
+                        "callback arguments compared up to numeric representation and nil pointer vs zero value"]
     return res.finish()
